@@ -280,7 +280,7 @@ def check_bls(ctx, lib, c):
         return
     if how.startswith("equal:") or how == "gt_equal":
         imgs = [_img(lib, t, v) for t, v in zip(ins, args)]
-        if ctx.evaluations % 2 == 0:
+        if len(imgs[0]) == len(imgs[1]) and (imgs[0][0] ^ imgs[1][-1]) & 1:      # (a function of the case, so that a replay does the same)
             imgs[1] = imgs[0]
         load(imgs)
         f.restype = ctypes.c_bool
